@@ -331,7 +331,7 @@ def doCompile (args : List String) : String :=
         Option (List (Word × List Word × Option (List Char)) × List String) :=
       match xs with
       | "F" :: n :: t :: c :: more =>
-        match wordOfHex n, (if t = "-" then some [] else (t.splitOn ",").mapM wordOfHex),
+        match wordOfHex n, (if t = "~" then some [] else (t.splitOn ",").mapM wordOfHex),
               (if c = "none" then some none else (wordOfHex c).map some) with
         | some n, some t, some c => split3 more (files ++ [(n, t, c)])
         | _, _, _ => none
